@@ -31,7 +31,8 @@ entity-instance (thorough: + second str, time, timedelta, UUID); result_type of 
 result_type) in {none int str Decimal float date bool} (thorough: + datetime bytes); SQL texts:
 comparisons of $x with 2 (thorough 8) typed columns, a two-parameter text (thorough, 6x6 / 4x4
 types), coalesce($x, column) and bare columns as raw_sql() expressions; entry points quick: raw_sql() in
-genif/where/genexpr/order_by queries, Database.select, select_by_sql on real SQLite + PostgreSQL;
+genif/where/genexpr/order_by queries, Database.select, select_by_sql on real SQLite, a leaner set
+(genif, genexpr, Database.select, select_by_sql) on PostgreSQL;
 thorough: all 6 raw_sql() query forms, select/get/exists/execute, select_by_sql/get_by_sql on SQLite,
 SQLite-named, PostgreSQL, MySQL, Oracle. Enumerated: every ORDERED PAIR of items of the same database
 (thorough: + every ordered pair of a cross-database subset; + every ordered TRIPLE of the items of one
@@ -744,15 +745,16 @@ def typed_items(quick):
                 for vy in (ys if '$y' in fr else ('None',)):
                     for rt in rts: out.append(('T.%s:%s' % (kind, d), (fr, vx, vy, rt), 'typed'))
     for d in (T_DBS_QUICK if quick else T_DBS_ALL):
-        add('rawq.genif', d, T_COND[:2] if quick else T_COND[:5], V)
+        lean = quick and d != 'sqlite'      # quick: the full set on the real engine, a leaner one on PostgreSQL
+        add('rawq.genif', d, T_COND[:1] if lean else T_COND[:2] if quick else T_COND[:5], V)
         if not quick: add('rawq.genif', d, T_COND[5:], TV_QUICK)
         if not quick: add('rawq.genif', d, (T_TWO,), TV_TWO, TV_TWO)
-        for fm in ('where',) if quick else ('where', 'lamsel', 'filter'):
+        for fm in () if lean else ('where',) if quick else ('where', 'lamsel', 'filter'):
             add('rawq.' + fm, d, T_COND[:1], V)
         add('rawq.genexpr', d, T_EXPR[:1] if quick else T_EXPR, V)
         add('rawq.genexpr', d, T_COL[:2] if quick else T_COL, ('None',), rts=R)
         add('rawq.genexpr', d, T_EXPR[:1], ('int', 'str'), rts=R[1:])
-        add('rawq.order_by', d, T_EXPR[1:], V)
+        if not lean: add('rawq.order_by', d, T_EXPR[1:], V)
         add('db.select', d, T_COND[:1] if quick else T_COND[:2], V)
         add('E.select_by_sql', d, T_COND[:1] if quick else T_COND[:2], V)
         if not quick:
